@@ -191,3 +191,74 @@ def deinvert_laws(model: 'Model', s: 'val', role: 'str', t: 'val'):
     ensures(implies(not noop(model) and inverted_, d == inv))
     ensures(implies(not noop(model) and not inverted_, d == (s, role, t)))
     ensures(inv == (t, inv_role(model, role), s))
+
+
+# ---- reification tables (C11, C12) ---------------------------------------------------------------
+# reifications: role -> [(concept, source_role, target_role), ...]   (reif_has / reif_get)
+# dereifications: concept -> [(role, source_role, target_role), ...] (dereif_has / dereif_get)
+# Model.__init__ builds both with defaultdict(list).append, so every list that exists is a
+# non-empty list of 3-tuples: `tables_wf` is that invariant for the entries a call touches.
+
+@spec
+def entries_wf(entries: 'val') -> 'bool':
+    return (is_list(entries) and len(entries) >= 1
+            and forall_idx(entries, lambda i, e: is_tuple(e) and len(e) == 3 and is_str(e[1]) and is_str(e[2])))
+
+
+@contract('penman.model:Model.is_role_reifiable')
+def is_role_reifiable(self: 'Model', role: 'val') -> 'bool':
+    ensures(result == reif_has(self, role))
+
+
+@contract('penman.model:Model.is_concept_dereifiable')
+def is_concept_dereifiable(self: 'Model', concept: 'val') -> 'bool':
+    ensures(result == dereif_has(self, concept))
+
+
+@contract('penman.model:Model.reify')
+def reify(self: 'Model', triple: 'tuple', variables: 'optset') -> 'tuple':
+    requires(len(triple) == 3)
+    requires(implies(reif_has(self, triple[1]), entries_wf(reif_get(self, triple[1]))))
+    raises(ModelError, when=not reif_has(self, triple[1]))
+    # three triples around one node variable: (var src-role source) (var :instance concept) (var tgt-role target)
+    ensures(len(result) == 3 and is_str(result[0][0]))
+    ensures(result == ((result[0][0], reif_get(self, triple[1])[0][1], triple[0]),
+                       (result[0][0], ':instance', reif_get(self, triple[1])[0][0]),
+                       (result[0][0], reif_get(self, triple[1])[0][2], triple[2])), label='shape')
+    # the node variable is fresh with respect to the given variables
+    ensures(variables is None or not (result[0][0] in variables), label='fresh')
+    invariant(0, lambda: is_str(var))
+
+
+@spec
+def fits(entry: 'val', source_role: 'val', target_role: 'val') -> 'bool':
+    """a dereification table entry fits the two roles, directly or with the roles swapped"""
+    return ((entry[1] == source_role and entry[2] == target_role)
+            or (entry[2] == source_role and entry[1] == target_role))
+
+
+@spec
+def dereified(entry: 'val', source_triple: 'tuple', target_triple: 'tuple') -> 'tuple':
+    """the edge runs from the argument of the entry's source role to that of its target role"""
+    if entry[1] == source_triple[1] and entry[2] == target_triple[1]:
+        return (source_triple[2], entry[0], target_triple[2])
+    return (target_triple[2], entry[0], source_triple[2])
+
+
+@contract('penman.model:Model.dereify')
+def dereify(self: 'Model', instance_triple: 'tuple', source_triple: 'tuple', target_triple: 'tuple') -> 'tuple':
+    requires(len(instance_triple) == 3 and len(source_triple) == 3 and len(target_triple) == 3)
+    requires(implies(dereif_has(self, instance_triple[2]), entries_wf(dereif_get(self, instance_triple[2]))))
+    raises(ValueError, when=instance_triple[1] != ':instance'
+           or not (instance_triple[0] == source_triple[0] and source_triple[0] == target_triple[0]))
+    raises(ModelError, when=(not dereif_has(self, instance_triple[2]))
+           or forall_idx(dereif_get(self, instance_triple[2]),
+                         lambda j, e: not fits(e, source_triple[1], target_triple[1])))
+    # the first table entry (in table order) that fits decides the edge
+    ensures(exists_idx(dereif_get(self, instance_triple[2]),
+                       lambda j, e: fits(e, source_triple[1], target_triple[1])
+                       and forall_idx(dereif_get(self, instance_triple[2]),
+                                      lambda k, f: k >= j or not fits(f, source_triple[1], target_triple[1]))
+                       and result == dereified(e, source_triple, target_triple)))
+    invariant(0, lambda: forall_idx(dereif_get(self, concept), lambda k, f: k >= _i or not fits(f, source_role, target_role)))
+    invariant(0, lambda: concept == instance_triple[2] and source_role == source_triple[1] and target_role == target_triple[1])
